@@ -12,7 +12,7 @@ What is transliterated (line numbers of the pinned tree):
 * `all_scripts`, `scripts`, `build_witness_set(remove_dup_script)`                           (535-569, 1153-1206)
 * `_redeemer_list`, `redeemers()` (map / list form)                                          (575-604)
 * `script_data_hash` property + `utils.script_data_hash` preimage                           (606-626, utils 235-268)
-* `CostModels.to_shallow_primitive` (language views)                                         (plutus.py 67-85)
+* `CostModels.to_shallow_primitive` (language views, repaired iteration order of 864980f)     (plutus.py 67-86)
 * `_update_execution_units`                                                                  (1591-1621)
 * the automatic validity interval of `build`                                                 (1275-1293)
 
@@ -79,6 +79,15 @@ def sortAccounts (ks : List Bytes) : List Bytes := isort (fun a b => !bytesLt b 
 def rewardAccount (net : Nat) (h : Bytes) : Bytes := UInt8.ofNat (0xF0 + net) :: h
 
 def mintIndex (mintKeys : List Bytes) (h : Bytes) : Option Nat := indexOf? h (sortPolicies mintKeys)
+
+/-- what the ledger sees of `self.inputs`: `TransactionBody.inputs` is an `OrderedSet`, a repeated UTxO is emitted once -/
+def bodyInputs : List TxIn → List TxIn
+  | [] => []
+  | x :: xs => x :: (bodyInputs xs).filter (· != x)
+
+/-- what the ledger sees of `self.mint`: `MultiAsset.to_primitive` serializes a normalised copy, so a stored policy
+that holds no non-zero quantity is not in the body's mint field -/
+def bodyPolicies (mint : MultiAsset) : List Bytes := Dict.keys (MultiAsset.normalize mint)
 def rewardIndex (net : Nat) (wdrlKeys : List Bytes) (h : Bytes) : Option Nat :=
   indexOf? (rewardAccount net h) (sortAccounts wdrlKeys)
 
@@ -345,12 +354,27 @@ def dedupNat : List Nat → List Nat
   | [] => []
   | x :: xs => x :: (dedupNat xs).filter (· != x)
 
-/-- `for language in sorted(self.keys())` over the dict `cost_models[version - 1] = …` -/
-def sortLangs (langs : List Nat) : List Nat := isort (fun a b => decide (a ≤ b)) (dedupNat langs)
+/-- Python tuple `<` on the sort key `(lang == 0, lang)` (`False < True`): languages ≥ 1 ascending, language 0 last -/
+def ltLang (a b : Nat) : Bool :=
+  -- `(True, 0)` is below nothing; `(False, a) < (True, 0)`; `(False, a) < (False, b)` iff `a < b`
+  if a = 0 then false else if b = 0 then true else decide (a < b)
 
-/-- `cbor2.dumps(CostModels(cost_models))`: entries in ascending language id, definite map -/
+/-- `for language in sorted(self.keys(), key=lambda lang: (lang == 0, lang))` over the dict
+`cost_models[version - 1] = …` (repaired order, /repo 864980f) -/
+def sortLangs (langs : List Nat) : List Nat := isort (fun a b => !ltLang b a) (dedupNat langs)
+
+/-- `cbor2.dumps(CostModels(cost_models))`: the integer-keyed entries of V2, V3 … in ascending language id, then
+the byte-string-keyed entry of V1; definite map -/
 def langViews (langs : List Nat) (pp : Nat → CostModel) : Bytes :=
   let ls := sortLangs langs
+  head 5 ls.length ++ ls.flatMap fun l => (viewEntry l (pp l)).1 ++ (viewEntry l (pp l)).2
+
+/-- the pinned tree iterated `sorted(self.keys())` (plain ascending language id); kept as documentation of the
+repaired defect KF-C12-views-order -/
+def sortLangsPinned (langs : List Nat) : List Nat := isort (fun a b => decide (a ≤ b)) (dedupNat langs)
+
+def langViewsPinned (langs : List Nat) (pp : Nat → CostModel) : Bytes :=
+  let ls := sortLangsPinned langs
   head 5 ls.length ++ ls.flatMap fun l => (viewEntry l (pp l)).1 ++ (viewEntry l (pp l)).2
 
 /-- the languages entering the hash: `version - 1` for every script of `all_scripts` that has a version -/
